@@ -648,7 +648,21 @@ def binop(interp, op, a, b, inplace=False):
     if t is ast.LShift:
         return ops.lshift(a, concretize(interp, b))
     if t is ast.RShift:
-        return ops.rshift(a, concretize(interp, b))
+        k = concretize(interp, b)
+        r = ops.rshift(a, k)
+        if isinstance(k, int) and k >= 16 and isinstance(r, SInt) and isinstance(as_int(a), SInt):
+            # nested-floor lemma, valid for every integer x: (x div 2^(j-8)) div 2^8 == x div 2^j.  The chain lets the
+            # solver relate octet extraction by shifts ((x >> 8k) & 0xFF) to a base-256 digit sum (div/mod by 2^40 and
+            # beyond is out of its reach otherwise)
+            x = as_int(a).t
+            prev = x
+            for j in range(8, k + 1, 8):
+                cur = x / z3.IntVal(1 << j)
+                interp.ctx.assume((prev / z3.IntVal(256)) == cur)
+                prev = cur
+            if k % 8:
+                interp.ctx.assume((prev / z3.IntVal(1 << (k % 8))) == r.t)
+        return r
     if t is ast.BitOr:
         if isinstance(a, (bool, SBool)) and isinstance(b, (bool, SBool)):
             return ops.b_or(a, b)
